@@ -107,6 +107,13 @@ def gen_case(rng, per):
             ops.append(["money_rate", rng.choice(["mul", "rmul", "div"]), f"{amt}@{sym}", rn, mode])
         else:
             ops.append(["money_rate", rng.choice(["mul", "div"]), f"{amt}@{rng.choice(['kg', 'm', 's'])}", rn, mode])
+    # targeted: LARGE amounts divided by / multiplied with every rate (the exact
+    # quotient by the stored rate - an inverse rounded to six digits first is
+    # off by whole units of the currency at this size)
+    for rn, (a, b) in rates.items():
+        big = rat(Fraction(rng.randint(10 ** 10, 10 ** 11), 100))
+        ops.append(["money_rate", "div", f"{big}@{b}", rn, rng.choice(MODES)])
+        ops.append(["money_rate", rng.choice(["mul", "rmul"]), f"{big}@{a}", rn, rng.choice(MODES)])
     # targeted: the counterpart of the price unit exists in the other currency
     # at ANOTHER scale only (EUR/g with HKD/kg): the look-up factor matters
     extra = []
